@@ -50,6 +50,8 @@ type Solver struct {
 	OneShotSec float64
 	Restarts int
 	resendBase bool
+	cross    *Solver
+	CrossQueries int
 	isHelper bool
 }
 
@@ -90,6 +92,9 @@ func NewSolver(kind string, store *TermStore, timeoutMs int) (*Solver, error) {
 func (s *Solver) Close() {
 	if s.helper != nil {
 		s.helper.Close()
+	}
+	if s.cross != nil {
+		s.cross.Close()
 	}
 	if s.cmd != nil && !s.dead {
 		s.in.Close()
@@ -260,6 +265,39 @@ func (s *Solver) restart() {
 	s.Restarts++
 	// level-0 assertions are re-sent by flush as well
 	s.resendBase = true
+}
+
+// CrossCheck re-decides the current assertion stack plus extra as a one-shot query in a
+// second solver implementation (thorough tier: "diff two solvers").
+func (s *Solver) CrossCheck(kind string, extra ...*Term) SatResult {
+	if s.cross == nil || s.cross.dead {
+		h, err := NewSolver(kind, s.store, s.timeout)
+		if err != nil {
+			return Unknown
+		}
+		h.isHelper = true
+		s.cross = h
+	}
+	h := s.cross
+	h.send("(reset)")
+	h.send("(set-option :print-success false)")
+	h.send("(set-option :produce-models true)")
+	h.send(fmt.Sprintf("(set-option :timeout %d)", s.timeout))
+	h.level, h.sent = 0, 0
+	h.defined = map[int32]int{}
+	h.byLevel = [][]int32{nil}
+	h.asserted = [][]*Term{nil}
+	for _, lv := range s.asserted {
+		for _, t := range lv {
+			h.Assert(t)
+		}
+	}
+	for _, t := range extra {
+		h.Assert(t)
+	}
+	r, _ := h.checkInc()
+	s.CrossQueries++
+	return r
 }
 
 func (s *Solver) checkOneShot() (SatResult, Model) {
